@@ -1,7 +1,9 @@
 import Frp.Model.Str
 /-
   Model of server/ports/ports.go (`Manager`: three separate tables, as in Go) and of the port-owning
-  part of proxy registration: `TCPProxy.Run/Close` (server/proxy/tcp.go, non-group branch),
+  part of proxy registration: `TCPProxy.Run/Close` (server/proxy/tcp.go, both branches: plain and
+  load-balancing group via `TCPGroupCtl.Listen` / `TCPGroup.Listen` / `TCPGroup.CloseListener`,
+  server/group/tcp.go, big-step = the sequential behaviour under the controller lock),
   `UDPProxy.Run/Close` (server/proxy/udp.go) and the quota / name bookkeeping of
   `Control.RegisterProxy/CloseProxy` (server/control.go).
 
@@ -73,12 +75,28 @@ def PM.randomMayFail (pm : PM) (avail : Nat → Bool) : Bool :=
 inductive Proto | tcp | udp
 deriving DecidableEq, Repr
 
+/-- what a tcp proxy with `loadBalancer.group` was admitted with: group name, group key and the
+    REQUESTED remote port (`TCPGroup.group / groupKey / port`, written by the founding `Listen` and
+    compared against every later member's request) -/
+structure GInfo where
+  g   : Str
+  key : Str
+  req : Nat
+deriving DecidableEq, Repr
+
 structure Pxy where
   name  : Str
   sid   : Nat                          -- owning session (Control)
   proto : Proto
-  port  : Nat                          -- realBindPort = the port its socket is bound to
+  port  : Nat                          -- realBindPort = the port its socket is bound to (group: `TCPGroup.realPort`, the shared listener)
+  grp   : Option GInfo := none         -- member of a tcp load-balancing group
 deriving DecidableEq, Repr
+
+/-- the proxy is a member of group `g` -/
+def Pxy.inGroup (x : Pxy) (g : Str) : Bool :=
+  match x.grp with
+  | some i => decide (i.g = g)
+  | none => false
 
 structure Srv where
   tcp      : PM
@@ -116,6 +134,8 @@ def Srv.setQuota (s : Srv) (sid n : Nat) : Srv :=
 
 inductive RegErr
   | quota | exists_ | acquire (e : AcqErr) | listen
+  | grpPort                            -- ErrGroupDifferentPort
+  | grpAuth                            -- ErrGroupAuthFailed
 deriving DecidableEq, Repr
 
 /-- `Control.RegisterProxy` for a tcp / udp proxy without group.
@@ -137,13 +157,57 @@ def Srv.register (s : Srv) (sid : Nat) (name : Str) (pr : Proto) (port : Nat)
         let s2 := (s.setPm pr pm').setLive ({ name := name, sid := sid, proto := pr, port := p } :: s.live)
         ((if s.maxPorts > 0 then s2.setQuota sid (s.quotaOf sid + 1) else s2), .ok p)
 
-/-- `Control.CloseProxy` (only proxies of the calling session) -/
+/-- `TCPGroupCtl.groups[g]` with `len(tg.lns) > 0`: the group's state (`tg.port`, `tg.groupKey`,
+    `tg.realPort`) is written once by the founding `Listen` and never changes while the group has
+    members; the model reads it off a live member (all members agree, see `SrvInv.agree`). -/
+def Srv.groupOf (s : Srv) (g : Str) : Option Pxy := s.live.find? (fun x => x.inGroup g)
+
+/-- `Control.RegisterProxy` for a tcp proxy WITH `loadBalancer.group` (TCPProxy.Run, group branch →
+    `TCPGroupCtl.Listen` → `TCPGroup.Listen`).  First member: Acquire through the tcp port manager,
+    own `net.Listen` (failure ⇒ `Release(realPort)`), remember `port`/`realPort`.  Later member:
+    must ask for the same port and key, is told `tg.realPort`; the manager is not touched. -/
+def Srv.registerG (s : Srv) (sid : Nat) (name : Str) (gi : GInfo)
+    (choice : Option Nat) (grab : Bool) : Srv × Except RegErr Nat :=
+  if s.maxPorts > 0 ∧ s.quotaOf sid + 1 > s.maxPorts then (s, .error .quota)
+  else if s.live.any (fun x => x.name = name) then (s, .error .exists_)
+  else
+    let add (s0 : Srv) (p : Nat) : Srv :=
+      let s2 := s0.setLive ({ name := name, sid := sid, proto := .tcp, port := p, grp := some gi } :: s.live)
+      if s.maxPorts > 0 then s2.setQuota sid (s.quotaOf sid + 1) else s2
+    match s.groupOf gi.g with
+    | none =>
+      -- len(tg.lns) == 0: the first listener, listen on the real address
+      match s.tcp.acquire name gi.req (s.avail .tcp) choice with
+      | (_, .error e) => (s, .error (.acquire e))
+      | (pm', .ok p) =>
+        if grab then
+          (((s.setPm .tcp (pm'.release p)).setExt ((.tcp, p) :: s.ext)), .error .listen)
+        else (add (s.setPm .tcp pm') p, .ok p)
+    | some m =>
+      match m.grp with
+      | none => (s, .error .grpPort)                       -- unreachable: `groupOf` returns members only
+      | some mi =>
+        if mi.req ≠ gi.req then (s, .error .grpPort)        -- tg.port != port
+        else if mi.key ≠ gi.key then (s, .error .grpAuth)   -- tg.groupKey != groupKey
+        else (add s m.port, .ok m.port)                     -- realPort = tg.realPort
+
+/-- does closing `x` dissolve its listener?  plain proxy: always (it owns the socket); group member:
+    only when it is the last one (`len(tg.lns) == 0` in `TCPGroup.CloseListener`) -/
+def Srv.closesSocket (s : Srv) (x : Pxy) : Bool :=
+  match x.grp with
+  | none => true
+  | some i => !((s.live.filter (fun y => y.name ≠ x.name)).any (fun y => y.inGroup i.g))
+
+/-- `Control.CloseProxy` (only proxies of the calling session).  A plain proxy releases its port
+    (`TCPProxy.Close` / `UDPProxy.Close`); a group member closes its `TCPGroupListener`, and the last
+    one out closes the shared listener and does `portManager.Release(tg.realPort)`. -/
 def Srv.close (s : Srv) (sid : Nat) (name : Str) : Srv :=
   match s.live.find? (fun x => x.name = name ∧ x.sid = sid) with
   | none => s
   | some x =>
     let s1 := if s.maxPorts > 0 then s.setQuota sid (s.quotaOf sid - 1) else s
-    ((s1.setPm x.proto ((s.pm x.proto).release x.port)).setLive (s.live.filter (fun y => y.name ≠ name))).setLingering
+    let pm' := if s.closesSocket x then (s.pm x.proto).release x.port else s.pm x.proto
+    ((s1.setPm x.proto pm').setLive (s.live.filter (fun y => y.name ≠ name))).setLingering
       (if x.proto = .udp then x :: s.lingering else s.lingering)
 
 /-- the udp forwarder goroutine's own `pxy.Close()` after the socket was closed.
